@@ -91,7 +91,7 @@ def do_op(st, op, ids):
         return st.remove(ids[l])
 
 
-def run_history(hist, overlap=None, ch=None):
+def run_history(hist, overlap=None, ch=None, short=False):
     """Run on DiskStorage over MemFS.  Returns (fs, ids, marks, returns) where marks[i] = (start, end)
     effect-log indexes of op i (end None if it never returned)."""
     import slimta.diskstorage as ds
@@ -104,6 +104,8 @@ def run_history(hist, overlap=None, ch=None):
                 w.add_event(label, fn)
         fs = memfs.MemFS(complete=complete)
         memfs.bind(w, fs, chunk_size=48)
+        if short:
+            fs.short_chooser = ch          # aio requests may complete for fewer bytes than asked
         st = ds.DiskStorage('/q/env', '/q/meta', '/q/tmp')
 
         def one(i, op):
@@ -260,8 +262,8 @@ def judge_crash(hist, ids, marks, k, rec):
     return out, inside
 
 
-def check_history(hist, res, overlap=None, ch=None):
-    fs, ids, marks, rets = run_history(hist, overlap, ch)
+def check_history(hist, res, overlap=None, ch=None, short=False):
+    fs, ids, marks, rets = run_history(hist, overlap, ch, short)
     full = list(overlap[0]) + [overlap[1], overlap[2]] if overlap else hist
     n = len(fs.log)
     seen_states = set()
@@ -282,7 +284,7 @@ def check_history(hist, res, overlap=None, ch=None):
             sig = dict(sig, during=','.join(op_in_progress) or 'between-operations')
             res.violation(sig, 'history %r crash after effect %d/%d (%s): %s' % (full, k, n, fs.log[k - 1][0] if k else 'start', msg),
                           {'hist': [list(o) for o in hist] if hist else None, 'overlap': [[list(o) for o in overlap[0]], list(overlap[1]), list(overlap[2])] if overlap else None,
-                           'choices': ch.choices if ch else None, 'k': k})
+                           'choices': ch.choices if ch else None, 'k': k, 'short': short})
     res.states += n + 1
     res.transitions += n
     return fs, ids, rets
@@ -480,6 +482,9 @@ def configs(tier, seed):
         # two operations on different messages overlapping in time (aio completions interleaved), one deviation
         for a, b in ((('write', 'A'), ('write', 'B')), (('inc', 'A'), ('inc', 'B')), (('ts', 'A'), ('write', 'B')), (('dlv', 'A'), ('rm', 'B'))):
             cfgs.append({'mode': 'overlap', 'a': list(a), 'b': list(b), 'd': 1})
+    # aio requests completing for fewer bytes than asked (legal): every placement of one (thorough: two) short completions
+    for h in ([['write', 'A']], [['write', 'A'], ['inc', 'A']], [['write', 'A'], ['dlv', 'A'], ['ts', 'A']], [['write', 'A'], ['write', 'B'], ['rm', 'A']]):
+        cfgs.append({'mode': 'short', 'hist': h, 'd': 1 if tier == 'quick' else 2})
     # resumption by a real Queue restarted over 4 due messages: bounded/unbounded store pool, lazy listing, slow reads
     for sp in (None, 1, 2):
         for slow in (['load-step'], ['load-step', 'get'], ['load-step', 'set_timestamp']):
@@ -507,6 +512,17 @@ def run_config(cfg, tier, seed):
                     res.violation({'kind': 'memfs-conformance'}, 'history %r: %s' % (h, err), {'hist': [list(o) for o in h], 'overlap': None, 'choices': None, 'k': -1})
             if i % 97 == cfg['k']:
                 res.sample({'history': h, 'effect_log': [e for e, _ in fs.log]})
+    elif cfg['mode'] == 'short':
+        hist = [tuple(o) for o in cfg['hist']]
+
+        def run(ch):
+            check_history(hist, res, ch=ch, short=True)
+            return tuple(ch.choices)
+        st = explore(run, d=cfg['d'], dd=None, merge=False, max_exec=3000)
+        res.count('short_completion_schedules', st.executions)
+        if st.cap_hit:
+            res.caps.append(st.cap_hit)
+        res.sample({'history': hist, 'short_aio_completions': st.executions})
     elif cfg['mode'] == 'restart':
         st = explore(lambda ch: check_restart(cfg, ch, res), d=cfg['d'], dd=1, merge=True, max_exec=20000)
         res.count('restart_schedules', st.executions)
@@ -560,7 +576,7 @@ def replay(rep):
     ov = rep.get('overlap')
     if ov:
         ov = ([tuple(o) for o in ov[0]], tuple(ov[1]), tuple(ov[2]))
-    check_history(hist, res, overlap=ov, ch=Chooser(rep['choices']) if rep.get('choices') else None)
+    check_history(hist, res, overlap=ov, ch=Chooser(rep['choices']) if rep.get('choices') else None, short=bool(rep.get('short')))
     if res.violations:
         return True, res.violations[0]['message']
     return False, 'every crash state recovers every acknowledged message'
